@@ -101,6 +101,16 @@ func (h *c09Sched) release(t int) {
 	}
 }
 
+// releaseAll frees every parked goroutine (end of a history; no hook is installed any more).
+func (h *c09Sched) releaseAll() {
+	h.mu.Lock()
+	for t, ch := range h.parked {
+		close(ch)
+		delete(h.parked, t)
+	}
+	h.mu.Unlock()
+}
+
 // next waits for the next event of thread t.
 func (h *c09Sched) next(t int) string {
 	select {
@@ -717,14 +727,17 @@ func c09PipeScenario(r *VRand, st *VStream, stat *VStats) {
 			}
 		}
 		// drain: release parked readLoops, close everything, collect waiters
-		for c := range held {
-			if held[c] {
-				w.h.release(1000 + c)
-			}
-		}
 		verifYieldHook = nil
+		w.h.releaseAll()
 		for c := range w.pcs {
-			w.pcs[c].Close()
+			pcn := w.pcs[c]
+			closed := make(chan struct{})
+			go func() { pcn.Close(); close(closed) }()
+			select {
+			case <-closed:
+			case <-time.After(c09PipeWait):
+				w.h.releaseAll()
+			}
 		}
 		for _, wt := range w.ws {
 			if wt.state == "waiting" || wt.state == "cancelled" {
